@@ -48,29 +48,21 @@ func genC08Consts(repo string) (string, error) {
 	if body == nil {
 		return "", fmt.Errorf("(*resolver).Resolve not found")
 	}
+	// the bound is whatever CONSTANT is passed as the third argument of resolution.resolve,
+	// under any name and wherever it is declared (go/types evaluates the expression)
 	var maxRounds int64 = -1
-	passed := false
 	ast.Inspect(body, func(n ast.Node) bool {
-		switch x := n.(type) {
-		case *ast.ValueSpec:
-			for i, nm := range x.Names {
-				if nm.Name == "maxRounds" && i < len(x.Values) {
-					if v, ok := fw.EvalInt(p, x.Values[i]); ok {
-						maxRounds = v
-					}
-				}
-			}
-		case *ast.CallExpr:
+		if x, ok := n.(*ast.CallExpr); ok {
 			if s, ok := x.Fun.(*ast.SelectorExpr); ok && s.Sel.Name == "resolve" && len(x.Args) == 3 {
-				if id, ok := x.Args[2].(*ast.Ident); ok && id.Name == "maxRounds" {
-					passed = true
+				if v, ok := fw.EvalInt(p, x.Args[2]); ok {
+					maxRounds = v
 				}
 			}
 		}
 		return true
 	})
-	if maxRounds < 0 || !passed {
-		return "", fmt.Errorf("Resolve: const maxRounds not found or not passed to resolution.resolve")
+	if maxRounds < 0 {
+		return "", fmt.Errorf("Resolve: no constant round bound passed to resolution.resolve")
 	}
 	// getPreference: initial rating, the ratings assigned, the default order, the delayed name
 	body = funcBody(p.Syntax, "provider", "getPreference")
